@@ -315,6 +315,7 @@ func runC06(r *engine.Run) {
 		}
 	})
 
+	registryChangeGaps(r)
 	// ---- registry: every CID x direction (from the reset registry: no proprietary CID is registered,
 	// so the range 0x80..0xFF has no payload either)
 	lorawan.VerifRegistryReset()
@@ -567,6 +568,49 @@ func runC06(r *engine.Run) {
 		}
 	})
 	// every zero / non-zero pattern of the seven mask slots x two non-zero fillers
+	// the 16 bytes decoded into a CFList value that was used before (decoded earlier, or given a payload
+	// object by the caller): same field values as into a fresh one
+	r.PartDims("cflist/used-receiver", []string{"earlier use{type 0, type 1, RFU type 2, caller-set mask payload, caller-set channel payload}", "decoded type{0,1,2}", "content:3"}, 5*3*3, func(c *engine.Case) {
+		mk := func(t byte, content int) []byte {
+			b := make([]byte, 16)
+			for k := 0; k < 15; k++ {
+				switch content {
+				case 1:
+					b[k] = byte(0x10 + k)
+				case 2:
+					b[k] = 0xFF
+				}
+			}
+			if t == 1 && content != 0 {
+				b[12], b[13], b[14] = 0, 0, 0
+			}
+			b[15] = t
+			return b
+		}
+		first := int(c.Index % 5)
+		second := byte((c.Index / 5) % 3)
+		content := int(c.Index / 15)
+		var used lorawan.CFList
+		switch first {
+		case 0, 1, 2:
+			used.UnmarshalBinary(mk(byte(first), 1))
+		case 3:
+			used = lorawan.CFList{CFListType: lorawan.CFListChannelMask, Payload: &lorawan.CFListChannelMaskPayload{ChannelMasks: []lorawan.ChMask{{true}}}}
+		case 4:
+			used = lorawan.CFList{CFListType: lorawan.CFListChannel, Payload: &lorawan.CFListChannelPayload{Channels: [5]uint32{868100000}}}
+		}
+		b := mk(second, content)
+		var fresh lorawan.CFList
+		errFresh := fresh.UnmarshalBinary(append([]byte(nil), b...))
+		errUsed := used.UnmarshalBinary(append([]byte(nil), b...))
+		c.Eval()
+		c.NonTrivial()
+		if (errFresh == nil) != (errUsed == nil) {
+			c.Fail("decode/CFList/used-receiver", fmt.Sprintf("%x into a used CFList (earlier use %d): err %v; into a fresh one: err %v", b, first, errUsed, errFresh), nil)
+		} else if errFresh == nil && deepPrint(used) != deepPrint(fresh) {
+			c.Fail("decode/CFList/used-receiver", fmt.Sprintf("%x into a used CFList (earlier use %d) gives %s, into a fresh one %s", b, first, deepPrint(used), deepPrint(fresh)), nil)
+		}
+	})
 	r.PartDims("cflist/mask-patterns", []string{"zero/non-zero pattern of 7 masks:128", "non-zero mask value:3"}, 128*3, func(c *engine.Case) {
 		pat := int(c.Index % 128)
 		val := []uint16{0xFFFF, 0x0001, 0x8000}[c.Index/128]
